@@ -164,8 +164,10 @@ def ensure(repo=None, fresh=False, features=""):
         raise ExtractError("repository not found: %s" % repo)
     key = tree_key(repo, features)
     os.makedirs(os.path.join(CACHE, "facts"), exist_ok=True)
+    os.makedirs(os.path.join(CACHE, "locks"), exist_ok=True)
     dest = os.path.join(CACHE, "facts", key)
-    lockf = open(os.path.join(CACHE, "lock"), "w")
+    # one lock per tree: different trees (seed copies) are extracted in parallel, the same tree only once
+    lockf = open(os.path.join(CACHE, "locks", key), "w")
     fcntl.flock(lockf, fcntl.LOCK_EX)
     try:
         if fresh and os.path.isdir(dest):
@@ -180,6 +182,8 @@ def ensure(repo=None, fresh=False, features=""):
         log = []
         try:
             _extract(repo, work, features, log)
+            if os.path.exists(os.path.join(repo, "Cargo.lock")):
+                shutil.copy(os.path.join(repo, "Cargo.lock"), os.path.join(work, "Cargo.lock"))      # the resolution the facts were built with
             meta = {"key": key, "repo": repo, "features": features, "extract_s": round(time.time() - t0, 1),
                     "files": len(_source_files(repo)), "log": log}
             with open(os.path.join(work, "meta.json"), "w") as fh:
@@ -187,7 +191,13 @@ def ensure(repo=None, fresh=False, features=""):
             os.rename(work, dest)
         finally:
             shutil.rmtree(work, ignore_errors=True)
-        _prune()
+        glock = open(os.path.join(CACHE, "lock"), "w")
+        fcntl.flock(glock, fcntl.LOCK_EX)
+        try:
+            _prune()
+        finally:
+            fcntl.flock(glock, fcntl.LOCK_UN)
+            glock.close()
         return dest
     finally:
         fcntl.flock(lockf, fcntl.LOCK_UN)
